@@ -24,12 +24,26 @@ fn fail(class: &str, detail: String) -> ! {
     std::process::exit(1);
 }
 
-fn c19<K: Kmer + Send + Sync + serde::Serialize>(spec: &GraphSpec, threads: usize) {
-    let base: BaseGraph<K, u16> = base_graph_for::<K>(spec);
+/// Real rayon pool (default) or, with feature `standin`, the std-thread stand-in whose
+/// workers are guaranteed to overlap (miri then interleaves the closure bodies).
+#[cfg(not(feature = "standin"))]
+fn with_pool<R: Send>(threads: usize, _seed: u64, f: impl FnOnce() -> R + Send) -> R {
     let pool = rayon::ThreadPoolBuilder::new().num_threads(threads).build().expect("pool");
-    let g1 = pool.install(|| base.clone().finish());
+    pool.install(f)
+}
+
+#[cfg(feature = "standin")]
+fn with_pool<R: Send>(threads: usize, seed: u64, f: impl FnOnce() -> R + Send) -> R {
+    rayon::set_max_workers(threads);
+    rayon::set_seed(seed);
+    f()
+}
+
+fn c19<K: Kmer + Send + Sync + serde::Serialize>(spec: &GraphSpec, threads: usize, seed: u64) {
+    let base: BaseGraph<K, u16> = base_graph_for::<K>(spec);
+    let g1 = with_pool(threads, seed, || base.clone().finish());
     let g2 = base.clone().finish_serial();
-    let g3 = pool.install(|| base.clone().finish());
+    let g3 = with_pool(threads, seed ^ 0x5555, || base.clone().finish());
     // interpreter budget: a reduced probe set (terminal k-mers, their reverse complements and two
     // one-base extensions per node) instead of the 36 probes per node used by engine T
     let p = if g1.len() <= 6 { probes(&g1, &[]) } else { small_probes(&g1) };
@@ -48,7 +62,8 @@ fn c19<K: Kmer + Send + Sync + serde::Serialize>(spec: &GraphSpec, threads: usiz
         fail("lookup-inexact", e);
     }
     println!(
-        "MIRI-RESULT scenario=c19 ktype={} nodes={} threads={} probes={} digest={:016x}",
+        "MIRI-RESULT scenario=c19 pool={} ktype={} nodes={} threads={} probes={} digest={:016x}",
+        if cfg!(feature = "standin") { "std-thread-standin" } else { "real-rayon" },
         spec.ktype,
         g1.len(),
         threads,
@@ -129,12 +144,13 @@ fn main() {
         let k = simcore::spec::k_of(&spec.ktype);
         spec.direct_nodes = simcore::spec::gen_direct_nodes(&mut rng, &spec.reads, k, 10);
     }
-    let threads = rng.range(2, 4);
+    // the stand-in variant exists to make closure bodies overlap: use more workers there
+    let threads = if cfg!(feature = "standin") { rng.range(4, 8) } else { rng.range(2, 4) };
     let gamma = *rng.pick(&[1.7f64, 1.05, 1.2, 2.5]);
     match (args[1].as_str(), spec.ktype.as_str()) {
-        ("c19", "Kmer6") => c19::<Kmer6>(&spec, threads),
-        ("c19", "Kmer8") => c19::<Kmer8>(&spec, threads),
-        ("c19", "Kmer16") => c19::<Kmer16>(&spec, threads),
+        ("c19", "Kmer6") => c19::<Kmer6>(&spec, threads, case_seed),
+        ("c19", "Kmer8") => c19::<Kmer8>(&spec, threads, case_seed),
+        ("c19", "Kmer16") => c19::<Kmer16>(&spec, threads, case_seed),
         ("c18", "Kmer6") => c18::<Kmer6>(&spec, threads, gamma),
         ("c18", "Kmer8") => c18::<Kmer8>(&spec, threads, gamma),
         ("c18", "Kmer16") => c18::<Kmer16>(&spec, threads, gamma),
